@@ -135,6 +135,42 @@ pub fn judge(h: &[u8], is_v1: bool, rec: &mut Recorder) {
         }
     }
 
+    // 1b. the same prefixes right after a *related* header was accepted on this thread (the
+    //     previous connection): the header whose last port is two digits shorter, then this
+    //     header's line without its CRLF; and the header itself, then each of its last prefixes
+    if is_v1 && h.starts_with(b"PROXY TCP") && h.len() > 6 {
+        let body = &h[..h.len() - 2];
+        let digits = body.iter().rev().take_while(|b| b.is_ascii_digit()).count();
+        let mut related: Vec<(Vec<u8>, usize)> = Vec::new(); // (header accepted first, prefix length of h parsed next)
+        if digits >= 3 {
+            let mut h1 = body[..body.len() - 2].to_vec();
+            h1.extend_from_slice(b"\r\n");
+            related.push((h1, body.len()));
+        }
+        related.push((h.to_vec(), h.len() - 1));
+        related.push((h.to_vec(), h.len() - 2));
+        related.push((h.to_vec(), h.len() - 3));
+        for (first, k) in related {
+            for &e in entries {
+                let r1 = parse(e, &first).unwrap();
+                let p = &h[..k];
+                let r = parse(e, p).unwrap();
+                rec.events(2);
+                let inc = matches!(r.flags(), Some((true, _)));
+                if r1.is_ok() && (!inc || r.is_ok()) {
+                    rec.violation(
+                        &format!("prefix-not-incomplete:{}", ENTRY[e]),
+                        enc_case(kind, h),
+                        format!("after-related-header|{}", skeleton_text(p)),
+                        format!("{}: right after {:?} was accepted, the prefix of {} bytes {:?} of accepted header {:?} gives {} (must be flagged incomplete)", ENTRY[e], show(&first, 120), k, show(p, 120), show(h, 120), r.brief()),
+                    );
+                } else {
+                    rec.class(&format!("prefix-after-related-header|{}", ENTRY[e]), || show(p, 100));
+                }
+            }
+        }
+    }
+
     // 2. receiver simulation: stream = header ++ payload, delivered in reads
     let ts = trailers();
     let payload = rng.pick(&ts).clone();
